@@ -16,8 +16,9 @@ from: on every run it re-reads /repo's working tree and
   2. compares them with the pinned statements of translate/footprint_pinned.json (the text the
      model corresponds to; regenerate with `python3 translate/footprint_src.py --pin` only
      after re-transcribing FpModel.v);
-  3. checks that every `unsafe` token of lightmotif/src (outside neon.rs, which does not
-     compile on x86_64) lies inside one of the listed functions: new unsafe code is unmodelled.
+  3. checks that every `unsafe` token of lightmotif/src lies inside one of the listed functions
+     (neon.rs included: its kernels do not compile on x86_64 and are tied by text and by the
+     interpreter only): new unsafe code is unmodelled.
 
 A difference is a broken tie (reported by the runner as a broken obligation, which triggers the
 wider sanitizer search), never a crash.  Harmless rewrites of these statements break the tie as
@@ -60,6 +61,12 @@ FUNCTIONS = [
     ("pli/platform/sse2.rs", "encode_into", 0),
     ("pli/platform/sse2.rs", "score_rows_into", 0),
     ("pli/platform/sse2.rs", "argmax", 0),
+    ("pli/platform/neon.rs", "encode_into_neon", 0),
+    ("pli/platform/neon.rs", "score_f32_neon", 0),
+    ("pli/platform/neon.rs", "score_u8_neon", 0),
+    ("pli/platform/neon.rs", "encode_into", 0),
+    ("pli/platform/neon.rs", "score_f32_rows_into", 0),
+    ("pli/platform/neon.rs", "score_u8_rows_into", 0),
     ("pli/mod.rs", "encode_raw", 0),
     ("pli/mod.rs", "encode_into", 0),       # trait default
     ("pli/mod.rs", "score_rows_into", 0),   # trait default
@@ -84,12 +91,12 @@ SNIPPETS = [
     ("seq.rs::DEFAULT_EXTRA_ROWS", "seq.rs", r"const\s+DEFAULT_EXTRA_ROWS\s*:\s*usize\s*=\s*\w+\s*;"),
 ]
 # files scanned for `unsafe` tokens
-SCAN_SKIP = ("pli/platform/neon.rs",)
+SCAN_SKIP = ()
 
 MEM_INTRINSIC = re.compile(
     r"_mm\d*_(?:mask_?)?(?:load|loadu|lddqu|store|storeu|stream|maskload|maskstore|i32gather|i64gather|"
-    r"load1|loadl|loadh|storel|storeh|broadcast_s[sd])\w*\s*\(")
-ANY_INTRINSIC = re.compile(r"_mm\d*_\w+\s*\(")
+    r"load1|loadl|loadh|storel|storeh|broadcast_s[sd])\w*\s*\(|\bv(?:ld|st)[1-4]q?_\w+\s*\(")
+ANY_INTRINSIC = re.compile(r"_mm\d*_\w+\s*\(|\bv[a-z]+[0-9]*q?_[a-z0-9_]+\s*\(|\b(?:u?int|float)\d+x\d+(?:x\d+)?_t\s*\(")
 POINTERISH = re.compile(r"\.add\(|\.sub\(|\.offset\(|as_ptr\(|as_mut_ptr\(|from_raw_parts|set_len|get_unchecked|"
                         r"\*mut |\*const |\[[^\]]*\]\s*=|stride|resize|reserve|copy_from_slice")
 
@@ -299,7 +306,7 @@ def translate():
         errors.append("unsafe code outside the modelled functions: " + ", ".join(outside[:8]))
     n = sum(len(v) for v in table.values())
     notes.append("source tie: %d memory-relevant statements of %d functions compared with translate/footprint_pinned.json; "
-                 "every `unsafe` of lightmotif/src (except neon.rs) lies inside them" % (n, len(table)))
+                 "every `unsafe` of lightmotif/src lies inside them" % (n, len(table)))
     if errors:
         return dict(ok=False, errors=["footprint source tie: " + e for e in errors[:6]], notes=notes)
     return dict(ok=True, notes=notes)
